@@ -133,6 +133,10 @@ void note_case(uint64_t h) {
 void set_sample(const std::string& s) { if (g_shm && !g_shm->sample[0]) copy_str(g_shm->sample, sizeof g_shm->sample, s); }
 void observe(uint64_t v) { if (g_shm) g_shm->obs_digest = mix64(g_shm->obs_digest, v); }
 void observe(const std::string& s) { observe(hash_str(s)); }
+void api_site(const std::string& site, BudgetPolicy pol, uint64_t budget) {
+	if (g_shm) { copy_str(g_shm->cur_op, sizeof g_shm->cur_op, site); g_shm->budget_policy = pol; }
+	simheap::set_step_budget(budget); simheap::reset_step_ticks();
+}
 
 bool load_known_findings(const std::string& path) {
 	std::ifstream in(path); if (!in) return false;
@@ -209,6 +213,7 @@ static std::string g_profile_for_budget;
 static void budget_exceeded() {
 	std::string op = g_shm ? std::string(g_shm->cur_op) : "?";
 	simheap::end_run();   // the report itself allocates
+	if (g_shm && g_shm->budget_policy == BUDGET_INCONCLUSIVE) { count(c_budget_inconclusive); finish_child(1); }
 	violation(g_profile_for_budget + ".hang", op, "step exceeded its tick budget (" + std::to_string(simheap::step_ticks()) + " allocator events) without returning");
 	finish_child(1);     // listed as known: the run ends here, nothing more can be checked
 }
